@@ -10,7 +10,7 @@
    Vectors over Z_2 are [list bool] read with [get] (a missing tail is zero), so equality is [veq] (pointwise). *)
 From Coq Require Import ZArith List Bool Arith Sorting.Permutation.
 Require Import C07_Model C07_Gauss C07_Proofs C07_Skip C07_Ident.
-Require C07_Betti C07_InsOnly.
+Require C07_Betti C07_InsOnly C07_ELZdefs C07_ELZ C07_Bridge C07_Final ReduceExec.
 Import ListNotations.
 Open Scope Z_scope.
 
@@ -131,6 +131,35 @@ Theorem C07_insertion_only_ranks_are_persistent_betti_numbers : forall s k b e, 
 Proof. exact C07_InsOnly.insertion_only_ranks. Qed.
 Print Assumptions C07_insertion_only_ranks_are_persistent_betti_numbers.
 
+(* the pairing theorem (Edelsbrunner - Letscher - Zomorodian) for the specification: given ANY homogeneous reduced decomposition
+   R = dV of the boundary operator of a valid insertion-only sequence (V unit upper triangular, dimension-homogeneous, the lows
+   of the non-zero columns of R distinct), the bars read off its lows are the barcode of the specification *)
+Theorem C07_pairing_theorem : forall s Vm Rm, valid s = true -> insertion_only s = true -> C07_ELZdefs.hred s Vm Rm ->
+  Permutation (C07_ELZ.bars_of_lows s (map C07_ELZdefs.last_one Rm)) (barcode s).
+Proof. exact C07_ELZ.elz_pairing. Qed.
+Print Assumptions C07_pairing_theorem.
+
+(* the certified reduction of coq/ReduceExec.v (integer matrices mod 2) has the lows of such a decomposition *)
+Theorem C07_certified_lows_come_from_a_reduced_decomposition : forall s l, valid s = true -> insertion_only s = true ->
+  ReduceExec.certified_lows 2 (boundary_matrix s) = Some l ->
+  exists Vm Rm, C07_ELZdefs.hred s Vm Rm /\ map C07_ELZdefs.last_one Rm = l.
+Proof. exact C07_Bridge.certified_gives_hred. Qed.
+Print Assumptions C07_certified_lows_come_from_a_reduced_decomposition.
+
+(* A2, end to end: an insertion-only sequence reproduces ordinary persistence - the barcode of the zigzag specification is
+   (a permutation of) pairs_of_lows (certified_lows 2 D), the oracle of properties C05/C06/C08 *)
+Theorem C07_insertion_only_is_ordinary_persistence : forall s l, valid s = true -> insertion_only s = true ->
+  ordinary_bars s = Some l -> Permutation l (barcode s).
+Proof. exact C07_Final.insertion_only_is_ordinary_persistence. Qed.
+Print Assumptions C07_insertion_only_is_ordinary_persistence.
+
+(* non-vacuity: a triangle filtration satisfies the hypotheses *)
+Theorem C07_insertion_only_example : valid C07_Final.triangle_filtration = true /\ insertion_only C07_Final.triangle_filtration = true /\
+  ordinary_bars C07_Final.triangle_filtration =
+    Some [(0, 1%nat, Some 2%nat); (0, 3%nat, Some 4%nat); (1, 5%nat, Some 6%nat); (0, 0%nat, None)].
+Proof. exact C07_Final.triangle_filtration_ok. Qed.
+Print Assumptions C07_insertion_only_example.
+
 (* identity arrows are transparent: no bar is born or dies at an identity arrow *)
 Theorem C07_no_death_at_identity : forall s k b e, (b <= e)%nat -> nth_error s (S e) = Some NId ->
   mult (rfun (length s) (rtab s k)) (Z.of_nat b) (Z.of_nat e) = 0.
@@ -221,11 +250,7 @@ Theorem C07_arrow_numbering_aligned : forall dimmax ops, length (normalize dimma
 Proof. exact normalize_length. Qed.
 Print Assumptions C07_arrow_numbering_aligned.
 
-(* ---- stated, NOT proved (each is evaluated by the oracle on every generated case: flags po, betti, mnn, fullres) ---- *)
-(* A2: an insertion-only sequence has the ordinary persistence pairing (certified reduction of coq/ReduceExec.v).
-   Proved above: the ranks are the persistent Betti numbers.  Missing: persistent Betti numbers -> pivot pairing of a reduced
-   matrix (the ELZ pairing theorem, trusted project-wide, DESIGN section 3/6) - evaluated per case (flag po). *)
-Definition C07_insertion_only_full : Prop := forall s l, valid s = true -> insertion_only s = true ->
-  ordinary_bars s = Some l -> Permutation l (barcode s).
-(* multiplicities are never negative (true because r counts summands: the literature theorem) *)
+(* ---- stated, NOT proved (evaluated by the oracle on every generated case: flag mnn; the flags po, betti, fullres re-check proved statements) ---- *)
+(* multiplicities are never negative (true because r counts summands: the literature theorem; proved for insertion-only
+   sequences inside C07_ELZ.v: they are 0 or 1) *)
 Definition C07_mult_nonneg_full : Prop := forall s k, valid s = true -> mult_nonneg s k = true.
